@@ -71,6 +71,9 @@ def run_arch(ck, arch, prop):
         forms += ["%s 0, (ix+5), a" % m for m in ("res", "set", "rlc")]
     ck.extra["universe"] = "%d mnemonics, %d forms" % (len(mns), len(forms))
     census_forms = [f for f, b in asmk.census(arch)]
+    if arch == "6502":
+        # the design-round census was taken at origin 0 with literal targets, so it has no branch forms
+        census_forms += ["%s $12" % mn for mn in REL_MN if mn not in ("jr", "djnz")]
     if not thorough and len(forms) > 60000:
         keep = set(census_forms)
         forms = [f for f in forms if f in keep] + rng.sample(forms, 45000)
